@@ -58,9 +58,29 @@ Example C15_example :
   d4 = 0 /\ d5 = 0 /\ in_multi s5 = false /\ t5 = [TArrayHdr 3; TValue true; TValue false; TValue false].
 Proof. vm_compute. repeat split; reflexivity. Qed.
 
+
+(* ---- instantiated with the model's operations (proofs in ProofServerTx.v) ----
+   [run_op now o d] = one queued command at Tx level.  The database EXEC leaves is the database the
+   caller-managed transaction of Ops.v leaves, and therefore (ProofRefineTx.v) related to the
+   abstract keyspace after the specification's transaction; the structural invariant holds. *)
+From Coq Require Import ZArith.
+From Redka Require Import Base Db Ops Spec Inv Refine ProofRefineEvery ProofRefineTx ProofServerTx.
+
+Theorem C15_exec_is_the_transaction : forall now q d,
+  fst (@Server.exec_block db op (run_op now) q d) = fst (exec_update now q true d).
+Proof. exact exec_is_the_transaction. Qed.
+
+Theorem C15_exec_refines_the_specification : forall now q d s,
+  no_delete_all q -> block_ok now q d -> Inv d -> R now d s ->
+  R now (fst (@Server.exec_block db op (run_op now) q d)) (fst (spec_update now q true s))
+  /\ Inv (fst (@Server.exec_block db op (run_op now) q d)).
+Proof. exact exec_refines_the_specification. Qed.
+
 Print Assumptions C15_state_machine.
 Print Assumptions C15_queued_has_no_effect.
 Print Assumptions C15_exec_all_or_nothing.
 Print Assumptions C15_discard_drops.
 Print Assumptions C15_connections_independent.
 Print Assumptions C15_own_queue_only.
+Print Assumptions C15_exec_is_the_transaction.
+Print Assumptions C15_exec_refines_the_specification.
